@@ -94,3 +94,14 @@ Theorem C09_sign_input_omits_only_sign :
   (forall f, In f header_struct_fields -> f <> "Sign" -> In f header_sign_fields).
 Proof. exact sign_input_omits_only_sign. Qed.
 Print Assumptions C09_sign_input_omits_only_sign.
+
+(** "that key belongs to a CURRENT block producer": the producer set a node validates
+    with is determined by its main chain (election snapshots, coq/Dpos/Election.v, tied
+    to bp/cluster.go by C08's election engine).  Partial: for a BPCOUNT that does not
+    change (known finding C08:bp-snapshot-bpcount-from-memory otherwise). *)
+From Verif Require Import Dpos.Election Dpos.ElectionProofs Dpos.ElectionMemProofs.
+Theorem C09_same_chain_same_producers_partial : forall rank n0 gen nd1 nd2,
+  mreachable rank n0 gen nd1 -> mreachable rank n0 gen nd2 ->
+  mn_main nd1 = mn_main nd2 -> m_cluster nd1 = m_cluster nd2.
+Proof. exact same_chain_same_producers_partial. Qed.
+Print Assumptions C09_same_chain_same_producers_partial.
